@@ -84,6 +84,13 @@ func c15sub(c *ctx) {
 		c15handshakes(c, i)
 		c.o.flush()
 	}
+	// the refused connection's clean-up as a step of its own (c15refused.go)
+	c15refusedScripted(c)
+	c.o.flush()
+	for i := 0; i < n; i++ {
+		c15refusedRandom(c, i)
+		c.o.flush()
+	}
 }
 
 func c15script(c *ctx, idx int) {
